@@ -51,9 +51,16 @@ func (s *StateMachine) BeginBlock() (lib.Events, lib.ErrorI) {
 	// so just set the committee to nil to ignore the byzantine evidence
 	// the byzantine evidence is handled at `Transaction Level` on the root
 	// chain with a HandleMessageCertificateResults
+	// the root chain id that is in force now (a change-parameter in the last block may have switched it)
+	currentRootChainId, err := s.GetRootChainId()
+	if err != nil {
+		return nil, err
+	}
 	if s.Config.ChainId != rootChainId {
-		err = s.HandleCertificateResults(lastCertificate, nil)
-		return s.events.Reset(), err
+		if err = s.HandleCertificateResults(lastCertificate, nil); err != nil {
+			return s.events.Reset(), err
+		}
+		return s.events.Reset(), s.resyncRootHeight(rootChainId, currentRootChainId)
 	}
 	// load the validator set for the previous height
 	lastValidatorSet, err := s.LoadCommittee(s.Config.ChainId, s.Height()-1)
@@ -62,8 +69,26 @@ func (s *StateMachine) BeginBlock() (lib.Events, lib.ErrorI) {
 	}
 	// if is root-chain: load the committee from state as the certificate result
 	// will match the evidence and there's no Transaction to HandleMessageCertificateResults
-	err = s.HandleCertificateResults(lastCertificate, &lastValidatorSet)
-	return s.events.Reset(), err
+	if err = s.HandleCertificateResults(lastCertificate, &lastValidatorSet); err != nil {
+		return s.events.Reset(), err
+	}
+	return s.events.Reset(), s.resyncRootHeight(rootChainId, currentRootChainId)
+}
+
+// resyncRootHeight() forgets the root height recorded for the own committee when the root chain was switched in the
+// last block: that block's certificate was built under the OLD root chain and carries the old root's height, which must
+// not become the lower bound for the certificates built under the new root (every following BeginBlock would fail with
+// 'invalid certificate root-chain height')
+func (s *StateMachine) resyncRootHeight(certificateRootChainId, currentRootChainId uint64) lib.ErrorI {
+	if certificateRootChainId == currentRootChainId {
+		return nil
+	}
+	selfCommittee, err := s.GetCommitteeData(s.Config.ChainId)
+	if err != nil {
+		return err
+	}
+	selfCommittee.LastRootHeightUpdated = 0
+	return s.OverwriteCommitteeData(selfCommittee)
 }
 
 // EndBlock() is code that is executed at the end of `applying` the block
